@@ -3,7 +3,7 @@ the real library and project the observation into the specification's vocabulary
 Deliberately dumb: attribute reads and constructor calls only."""
 from __future__ import annotations
 
-from .core import outcome, octs, after_pack, decoded
+from .core import outcome, octs, after_pack, decoded, live, scramble, rxbuf
 from .probe import decode_other, poison, twin
 
 
@@ -235,8 +235,11 @@ def op_tc_rt(a):
         return after_pack(raw, lambda: rest(tc, raw, plen, sp))
 
     def rest(tc, raw, plen, sp):
-        buf = bytes(raw) + bytes(a["sfx"])
-        dec = PusTc.unpack(bytearray(buf) if a.get("via") == "bytearray" else buf)
+        buf = live(bytearray(bytes(raw) + bytes(a["sfx"]))) if a.get("via") == "bytearray" else rxbuf(raw, a["sfx"])
+        dec = PusTc.unpack(buf)
+        if not isinstance(buf, bytes):
+            dec.to_space_packet().pack()          # the view of an object decoded from a receive buffer / a window into one
+        scramble()                                    # the receive buffer is re-used: the decoded object owns its data
         keep = octs(dec.pack(recalc_crc=False))       # before any recalculating pack(): the CRC field as decoded
         if a.get("via") == "bytearray":
             dec.to_space_packet().pack()          # the view of a decoded object must leave it as it is
@@ -295,8 +298,11 @@ def op_tm_rt(a):
     def rest(tm, raw, plen, sp, via):
         cls = Service17Tm if via == "srv17" else PusTm
         tsl = len(a["p"]["stamp"])
-        buf = bytes(raw) + bytes(a["sfx"])
-        dec = cls.unpack(bytearray(buf) if via == "bytearray" else buf, tsl)
+        buf = live(bytearray(bytes(raw) + bytes(a["sfx"]))) if via == "bytearray" else rxbuf(raw, a["sfx"])
+        dec = cls.unpack(buf, tsl)
+        if not isinstance(buf, bytes):
+            _inner_tm(dec).to_space_packet().pack()
+        scramble()
         keep = octs(_inner_tm(dec).pack(recalc_crc=False))      # first: the CRC field exactly as decoded
         if via == "bytearray":
             _inner_tm(dec).to_space_packet().pack()
